@@ -238,7 +238,7 @@ func vpC11Scribble(r *common.CustodianUpdateRequest) {
 
 func TestVP_C11_store_custodian(t *testing.T) {
 	c := kit.New(t, "C11", "rapid: 1..6 custodian updates (7..11 node entries from a fixed signed pool, six custodian addresses, first entry with or without valid node signatures) written at increasing times through writeTransaction+writeUTXO, 2..4 queries after every append at {t-1,t,t+1} of update times, before the first and uniform; checks: cached ReadCustodian == uncached readCustodianAccount (errors included) == (one time in three) a cold-cache store view, answers remembered for q stay the same after updates with ts>q are appended, mutating a returned object does not change later answers, reference = last update with ts<q when no update sits at q; plus a synthetic state where the first (genesis-parsed) transaction is referenced again at a later time; non-trivial = query with updates on both sides; distinct by rendered answer+q")
-	c.Require("updates-both-sides", "tie-at-q", "cache-hit", "before-first", "remembered-rechecked", "scribbled", "genesis-unsigned-first", "same-tx-twice", "error-answer")
+	c.Require("updates-both-sides", "tie-at-q", "cache-hit", "before-first", "remembered-rechecked", "scribbled", "genesis-unsigned-first", "same-tx-twice", "error-answer", "tie-append")
 	kit.SetChecks(kit.N(150, 3600))
 	rapid.Check(t, func(rt *rapid.T) {
 		s := vpC11OpenStore()
@@ -284,6 +284,43 @@ func TestVP_C11_store_custodian(t *testing.T) {
 			}
 			ups = append(ups, u)
 			last = ts
+
+			// a second update carrying the same custodian account arrives for the
+			// very same snapshot time (another chain's snapshot with an equal
+			// timestamp): every answer given so far and the answers at ts-1, ts,
+			// ts+1 must stay what they were before it arrived
+			if k != sameTwiceAt && rapid.IntRange(0, 3).Draw(rt, "tie_append") == 0 {
+				before := map[uint64]string{}
+				for q := range remembered {
+					if q < ts { // answers for q >= ts legitimately changed when u itself arrived
+						before[q] = remembered[q]
+					}
+				}
+				for _, q := range []uint64{ts - 1, ts, ts + 1} {
+					r, err := s.ReadCustodian(q)
+					before[q] = vpC11RenderCustodian(r, err)
+				}
+				serial++
+				var tie *vpC11Update
+				for try := 0; try < 20 && (tie == nil || tie.custodian.String() != u.custodian.String() || tie.hash == u.hash); try++ {
+					tie = vpC11BuildUpdate(rt, serial+1000*try, false)
+				}
+				if tie.custodian.String() == u.custodian.String() && tie.hash != u.hash {
+					if err := vpC11WriteUpdate(s, tie, ts, false); err != nil {
+						rt.Fatalf("write tie update at %d: %v", ts, err)
+					}
+					for q, want := range before {
+						r, err := s.ReadCustodian(q)
+						if got := vpC11RenderCustodian(r, err); got != want {
+							rt.Fatalf("ReadCustodian(%d) changed after a second update with the same custodian arrived for the occupied time %d:\n before=%.150s\n after =%.150s", q, ts, want, got)
+						}
+						if un := vpC11Uncached(s, q); un != want {
+							rt.Fatalf("uncached custodian lookup at %d changed after a tie update at %d:\n before=%.150s\n after =%.150s", q, ts, want, un)
+						}
+					}
+					c.Class("tie-append")
+				}
+			}
 
 			// relation: answers for q < ts are unaffected by the append
 			for q, want := range remembered {
